@@ -215,14 +215,43 @@ func newSig(k kref, incep, exp time.Time) *dns.RRSIG {
 type extra struct {
 	keys    []kref
 	signers []kref
+	named   []namedSig // RRSIGs over this RRset with an explicit Signer's Name
+}
+
+// namedSig: key/<n> — n = 0 is ".", n > 0 another name (never one used as a key owner: 7..9).
+type namedSig struct {
+	key    kref
+	signer int
 }
 
 // x=<keys|->:<signers|->;...
 func parseExtras(s string) []extra {
 	var out []extra
 	for _, e := range strings.Split(s, ";") {
-		ks, ss, _ := strings.Cut(e, ":")
-		out = append(out, extra{keys: parseRefs(ks), signers: parseRefs(ss)})
+		p := strings.Split(e, ":")
+		x := extra{keys: parseRefs(p[0])}
+		if len(p) > 1 {
+			x.signers = parseRefs(p[1])
+		}
+		if len(p) > 2 {
+			for _, ns := range strings.Split(p[2], ",") {
+				k, n, _ := strings.Cut(ns, "/")
+				x.named = append(x.named, namedSig{key: parseRef(k), signer: vlib.Atoi(n)})
+			}
+		}
+		out = append(out, x)
+	}
+	return out
+}
+
+// groundSigners: the signatures over this RRset that count for anchors owned by ".":
+// signer name "." only (RFC 4035 §5.3.1: the signer name must be the zone of the RRset's signer key).
+func (e extra) groundSigners() []kref {
+	out := append([]kref(nil), e.signers...)
+	for _, n := range e.named {
+		if n.signer == 0 {
+			out = append(out, n.key)
+		}
 	}
 	return out
 }
@@ -230,7 +259,15 @@ func parseExtras(s string) []extra {
 func fmtExtras(xs []extra) string {
 	var parts []string
 	for _, e := range xs {
-		parts = append(parts, joinRefs(e.keys)+":"+joinRefs(e.signers))
+		p := joinRefs(e.keys) + ":" + joinRefs(e.signers)
+		if len(e.named) > 0 {
+			var ns []string
+			for _, n := range e.named {
+				ns = append(ns, fmt.Sprintf("%s/%d", n.key, n.signer))
+			}
+			p += ":" + strings.Join(ns, ",")
+		}
+		parts = append(parts, p)
 	}
 	return strings.Join(parts, ";")
 }
@@ -247,9 +284,10 @@ func (e extra) rrset(i int) []dns.RR {
 	return set
 }
 
-func signSet(k kref, set []dns.RR) *dns.RRSIG {
+func signSet(k kref, set []dns.RR, signer int) *dns.RRSIG {
 	now := time.Now()
 	sig := newSig(k, now.Add(-24*time.Hour), now.Add(7*24*time.Hour))
+	sig.SignerName = ownerName(signer)
 	sig.Hdr.Name = set[0].Header().Name
 	sig.TypeCovered = set[0].Header().Rrtype
 	sig.Labels = uint8(dns.CountLabel(set[0].Header().Name))
@@ -316,7 +354,10 @@ func buildAnswer(fetch, signers []kref, bad []badSig, extras ...extra) []dns.RR 
 		set := e.rrset(i)
 		out = append(out, set...)
 		for _, k := range e.signers {
-			out = append(out, signSet(k, set))
+			out = append(out, signSet(k, set, 0))
+		}
+		for _, n := range e.named {
+			out = append(out, signSet(n.key, set, n.signer))
 		}
 	}
 	return out
